@@ -736,7 +736,8 @@ impl Ctx {
                     // not demanded by the property (only the total is capped): logged
                     shard.count("logged:validator_emission_exceeds_its_stake_share");
                 }
-                if e.proposals_missed > 0 && &total * &sum_stake * BigInt::from(2) < &cap * &my {
+                // (only where the full share and the per-staked-XRD emission rate have >= 3 significant digits, so that truncation cannot explain it)
+                if e.proposals_missed > 0 && &cap * &my >= &sum_stake * BigInt::from(1000) && &cap * pow10(18) >= &sum_stake * BigInt::from(1000) && &total * &sum_stake * BigInt::from(2) < &cap * &my {
                     shard.count("penalties:emission_at_most_half_of_the_full_stake_share");
                 }
             }
